@@ -3,3 +3,69 @@ LEVEL_TEXT = ("Deductive: IF/NOT/IFS/SWITCH (arities up to 6) and AND/OR (any nu
               "prefix' + quantified truth) and every predicate are verified against the statement; exclusivity of the predicates is a "
               "lemma over their contracts.  Bounded: XOR parity, nested arrays (iflatten is a generator).")
 TRUSTED = ['utils.iflatten/flatten yield the leaves left to right (bounded native check only)', 'z3 5.1 quantifier instantiation']
+
+
+def extra(report, env):
+    from pyvc import e2e
+    from props.common import bounded
+    p = e2e.new_parser()
+    cases = 0
+    fails = []
+
+    def flat(x):
+        out = []
+        for y in x:
+            out.extend(flat(y)) if isinstance(y, list) else out.append(y)
+        return out
+    import itertools
+    import random
+    rng = random.Random(env['seed'])
+    vals = [True, False, 0, 1, -2, 0.5, None]
+    shapes = []
+    for _ in range(150 if env['tier'] == 'quick' else 2000):
+        n = rng.randint(1, 6)
+        items = [rng.choice(vals) for _ in range(n)]
+        # regroup into nested arrays of depth up to 3
+        def nest(xs, depth):
+            if len(xs) <= 1 or depth == 0 or rng.random() < 0.3:
+                return list(xs)
+            k = rng.randint(1, len(xs) - 1)
+            return [nest(xs[:k], depth - 1), nest(xs[k:], depth - 1)] if rng.random() < 0.5 else [xs[0], nest(xs[1:], depth - 1)]
+        shapes.append((items, nest(items, 3)))
+    for items, nested in shapes:
+        truth = [bool(x) for x in items]
+        p.set_variable('blk', nested)
+        for name, want in (('AND', all(truth)), ('OR', any(truth)), ('XOR', sum(truth) % 2 == 1)):
+            for text in ('%s(blk)' % name, '%s(blk,TRUE)' % name if name == 'AND' else '%s(blk,FALSE)' % name):
+                cases += 1
+                r = p.parse(text)
+                if r['result'] is not want and len(fails) < 5:
+                    fails.append({'formula': '%s with blk=%r' % (text, nested), 'detail': 'expected %r got %r' % (want, r)})
+    for text, want in (('AND({1,0;1,1})', False), ('AND({1,1;1,1})', True), ('OR({0,0;0,0})', False), ('OR({0,0;0,1})', True), ('XOR({1,1;1,0})', True),
+                       ('XOR({1,1;1,1})', False), ('NOT(0)', True), ('NOT(2)', False), ('IF(0.5,"a","b")', 'a'), ('IFS(0,1,2,3)', 3),
+                       ('IFS(FALSE,1,0,2)', '#N/A'), ('SWITCH(2,1,"a",2,"b","c")', 'b'), ('SWITCH(9,1,"a",2,"b","c")', 'c'), ('SWITCH(9,1,"a",2,"b")', '#N/A')):
+        cases += 1
+        r = p.parse(text)
+        ok = (r['error'] == want) if isinstance(want, str) and want.startswith('#') else r['result'] == want and type(r['result']) is type(want)
+        if not ok and len(fails) < 5:
+            fails.append({'formula': text, 'detail': 'expected %r got %r' % (want, r)})
+    from hotxlfp.formulas import error
+    for code in ('1/0', 'NA()', 'SQRT(-1)'):
+        for text in ('AND(TRUE,%s)', 'OR(FALSE,%s)', 'XOR(%s,1)', 'NOT(%s)', 'IF(%s,1,2)', 'IFS(%s,1,TRUE,2)', 'AND({1,1},%s)'):
+            cases += 1
+            r = p.parse(text % code)
+            if r['error'] is None and len(fails) < 5:
+                fails.append({'formula': text % code, 'detail': 'an error in a tested condition must yield that error, got %r' % (r,)})
+    for v in [1, -1, 2, 0, 1.5, -1.5, -2.5, -0.5, 2.5, 1000, 7.9, -7.9]:
+        p.set_variable('va', v)
+        cases += 1
+        e, o = p.parse('ISEVEN(va)'), p.parse('ISODD(va)')
+        if (bool(e['result']) == bool(o['result']) or bool(o['result']) != (int(v) % 2 == 1)) and len(fails) < 5:
+            fails.append({'formula': 'ISEVEN/ISODD(%r)' % v, 'detail': 'not complementary / not the parity of the integer part: %r %r' % (e, o)})
+    bounded(report, 'C12.truth-tables', 'seeded tuples of length 1..6 from {TRUE,FALSE,0,1,-2,0.5,blank} regrouped into nested arrays (depth <= 3) for '
+            'AND/OR/XOR, 2-D literals, IF/IFS/SWITCH/NOT spot checks, 3 error sources x 7 condition positions, ISEVEN/ISODD on 12 numbers', cases, fails)
+
+
+def replay(rp):
+    print(rp)
+    return 1
